@@ -227,7 +227,7 @@ func run(t *testing.T, tape *simrt.Tape) *hx.Outcome {
 	}
 	var layers []lay
 	for i := 0; i < nLayers; i++ {
-		spec := common.GenTar(d, tape.Seed+uint64(i)*7919, common.GenOpts{ChunkSize: cs, MaxEntries: 9, Whiteouts: true, OddNames: d(2) == 0})
+		spec := common.GenTar(d, tape.Seed+uint64(i)*7919, common.GenOpts{ChunkSize: cs, MaxEntries: 9, Whiteouts: true, OddNames: d(2) == 0, BigFiles: d(2) == 0})
 		tb := spec.Bytes()
 		m, err := common.Model(tb)
 		if err != nil {
